@@ -74,3 +74,17 @@ PROPS["C06"] = dict(
                  "macro names, parent and the helper spies are on the allow-list: the property does not say whether a macro call is a 'function'",
                  "the engine's apply tag takes a bare filter name, so the apply position uses an argument-less spy filter"],
 )
+
+PROPS["C17"] = dict(
+    level="model_checking",
+    stages=[dict(name="enum", module="MC_C17", cfg={"quick": "MC_C17_quick.cfg", "thorough": "MC_C17_thorough.cfg"},
+                 timeout={"quick": 300, "thorough": 900})],
+    nontrivial=lambda r: "kind:base" not in (r.get("tags") or []),
+    rule="corpus of template structures with a spy at every callback position; TLC learns the invocation counts of the "
+         "fault-free run and enumerates every single-fault placement (spy j fails at its m-th invocation, incl. one placement "
+         "beyond the last invocation), every loader fault and a list of unresolved filter/function/test/macro/template names; "
+         "each case is rendered 6 ways (debug on/off x Render / RenderTo(bytes.Buffer) / RenderTo(plain writer)); "
+         "non-trivial = a fault or unresolved name is present",
+    assumptions=["TLC checks Surfaces on the model; Exec decides only whether the faulted invocation is reached",
+                 "error identity is checked with errors.Is/As against the injected sentinel, ErrTemplateNotFound, *SecurityViolation"],
+)
